@@ -41,6 +41,26 @@ fn main() {
     }
 }
 
+fn progress(kind: char, id: &Value) {
+    use std::sync::OnceLock;
+    static FILE: OnceLock<Option<std::sync::Mutex<std::fs::File>>> = OnceLock::new();
+    let f = FILE.get_or_init(|| {
+        std::env::var("PLSVERIF_PROGRESS").ok().and_then(|p| {
+            std::fs::OpenOptions::new()
+                .create(true)
+                .append(true)
+                .open(p)
+                .ok()
+                .map(std::sync::Mutex::new)
+        })
+    });
+    if let Some(m) = f {
+        if let Ok(mut fh) = m.lock() {
+            let _ = fh.write_all(format!("{kind} {id}\n").as_bytes());
+        }
+    }
+}
+
 fn run(args: &[String]) {
     let mut path = None;
     let mut threads = 0usize;
@@ -99,7 +119,11 @@ fn run(args: &[String]) {
                     Ok(v) => v,
                     Err(e) => return json!({"tool_error": format!("bad case json: {e}")}).to_string(),
                 };
+                // progress log (one short O_APPEND write per event): lets the driver name the case that
+                // aborted the process (stack overflow) or never returned (deadlock, endless loop)
+                progress('S', &case["id"]);
                 let res = ops::run_case(&case);
+                progress('E', &case["id"]);
                 res.to_string()
             })
             .collect();
